@@ -122,6 +122,11 @@ for pid, cap in DEEP_CAP.items():
 CHECKS["C08"]["text"] += (" Volume: 245 x 70 000 characters (a long word / a wide product / a rejected run; > 2^24 characters) and then the whole alphabet in ONE parse_multi batch, "
                           "every position against the input parsed alone. Derived formats: seven edits of the public keyword tables applied to a clone of a format that has "
                           "already served the alphabet, to a clone of the shipped instance, and undone again, against the same edit made before the first use - both parsers, 3 formats.")
+CP_TEXT = " One name per identifier code point (a<c>b for every code point of the BMP, the emoji and tag blocks and every 64th above; thorough: every scalar value) that the format accepts and that occurs in none of its keywords, bare and inside a statement."
+for pid in ("C01", "C02", "C03", "C16"):
+    CHECKS[pid]["text"] += CP_TEXT
+CHECKS["C15"]["text"] += " Every ordered pair of the 540 item-subset inputs as a two-input parse_multi batch, and the whole list as one batch in both orders: the kind of every accepted position follows the stated rule."
+CHECKS["C08"]["text"] += " parse::<X> vs parse_chars::<X> for every generic target X on the thorough alphabet."
 ALL = ["C%02d" % i for i in range(1, 18)]
 NOT_YET = {}
 manifest = {
